@@ -35,7 +35,7 @@ CHECKS = {
          "crypto/tls as independent extractor; SNI name_type 0 only, ALPN names non-empty", "§3 C05"),
  "C09": ("exploration", "E1 enum",
          "exhaustive differential enumeration of key lists: outcome(list) compared with outcome([T]) / outcome(no relevant key) for first and retried hellos",
-         "All ordered key lists of length 0..4 (thorough; quick: all of length <=3 plus the length-4 lists mixing T with same-id keys) over a pool with same-id/same-suite, same-id/disjoint-suite, same-id/other-public-name and other-id keys x 3 AEADs x first/retried hello x hello encrypted to a held/unheld key are run on the real Conn; the outcome (acceptance, error class, forwarded bytes, alert bytes) must be identical to the reference list's.",
+         "All ordered key lists of length 0..4 (thorough; quick: all of length <=3 plus the length-4 lists mixing T with same-id keys) over a pool with same-id/same-suite, same-id/disjoint-suite, same-id/other-public-name and other-id keys x 3 AEADs x first/retried hello x hello encrypted to a held/unheld key are run on the real Conn; the outcome (acceptance, error class, forwarded bytes, alert bytes) must be identical to the reference list's. Histories of 1..3 connections in one process (lists with mismatched or malformed private keys, key buffers overwritten after the connection) must not change a later connection's outcome.",
          "reference sender validated against crypto/tls; all listed keys are valid", "§3 C09"),
  "C07": ("fault_enumeration", "E2 envx",
          "deviation-bounded exhaustive exploration of environment answers (transport read sizes, buffer sizes, write splits, write faults, transport end at every offset) by re-execution against a two-queue reference",
@@ -75,7 +75,7 @@ CHECKS = {
          "computation takes zero virtual time; sequentially consistent memory at synchronisation granularity; IP-literal addresses; scripted DialFunc honouring its context; executions per scenario capped (cap reported when hit); the DialFunc that NewDialer installs is replaced by a scripted fake in every scenario and only exercised by a supplementary pass over real loopback sockets (reported separately)", "§3 C18"),
  "C10": ("model_checking", "E3 gosched",
          "stateless model checking of the real NewConn under a controlled scheduler (sources rewritten at check time), all schedules up to a deviation bound in virtual time",
-         "For every combination of hello arrival (buffered, late, two fragments, never) x context end (never, cancelled by another thread at three times, cancelled by the caller right after the return, deadline) x keys, every schedule of caller, canceller, client and NewConn's own watcher goroutine with at most 8 deviations (thorough: no bound, the complete schedule tree) is executed on the real code; monitors check prompt failure when the context ends first, and that after a successful return no deadline call starts, no deadline is left set and the caller's Read/Write succeed.",
+         "For every combination of hello arrival (buffered, late, two fragments, never) x context end (never, cancelled by another thread at three times, cancelled by the caller right after the return, deadline) x keys, every schedule of caller, canceller, client and NewConn's own watcher goroutine with at most 8 deviations (thorough: no bound, the complete schedule tree) is executed on the real code; monitors check prompt failure when the context ends first, and that after a successful return no deadline call starts, no deadline is left set and the caller's Read/Write succeed. After a failed return (first record refused, end of stream) no deadline call starts and no goroutine of NewConn is left either, also under a context that never ends.",
          "zero-time computation; sequentially consistent memory at synchronisation granularity; scheduler-aware fake transport honouring deadlines; a second transport shape offers CloseRead/CloseWrite like *net.TCPConn; a third transport shape serves buffered bytes before it looks at its read deadline", "§3 C10"),
  "C17": ("fault_enumeration", "E1 enum + E2 envx",
          "exhaustive enumeration of resolution worlds and caller configurations; every tree of per-attempt outcomes (ok / error / ECH rejection with and without retry configs) explored by re-execution; oracle on the DialFunc argument log",
